@@ -132,3 +132,49 @@ pub proof fn lemma_filter_all<V>(s: Seq<V>, p: spec_fn(V) -> bool)
     }
 }
 } // verus!
+
+verus! {
+/// loading a list of ids and dropping the failures is filtering by membership and reading the map
+pub proof fn lemma_load_filter<V>(ids: Seq<u64>, m: Map<u64, V>, loaded: Seq<Result<V, crate::cosmwasm_std::StdError>>)
+    requires
+        loaded.len() == ids.len(),
+        forall|i: int| 0 <= i < ids.len() ==> ((#[trigger] loaded[i]) is Ok <==> m.dom().contains(ids[i])),
+        forall|i: int| 0 <= i < ids.len() && (#[trigger] loaded[i]) is Ok ==> loaded[i]->Ok_0 == m[ids[i]],
+    ensures
+        loaded.map_values(|r: Result<V, crate::cosmwasm_std::StdError>| match r { Ok(b) => Some(b), Err(_) => None::<V> })
+            .filter(crate::std_ext::vf_opt_some::<V>()).map_values(crate::std_ext::vf_opt_get::<V>())
+          == ids.filter(|id: u64| m.dom().contains(id)).map_values(|id: u64| m[id]),
+    decreases ids.len(),
+{
+    let g = |r: Result<V, crate::cosmwasm_std::StdError>| match r { Ok(b) => Some(b), Err(_) => None::<V> };
+    let some = crate::std_ext::vf_opt_some::<V>();
+    let get = crate::std_ext::vf_opt_get::<V>();
+    let p = |id: u64| m.dom().contains(id);
+    let rd = |id: u64| m[id];
+    reveal(Seq::filter);
+    if ids.len() == 0 {
+        assert(loaded.map_values(g).filter(some).map_values(get) =~= Seq::<V>::empty());
+        assert(ids.filter(p).map_values(rd) =~= Seq::<V>::empty());
+    } else {
+        let ids0 = ids.drop_last();
+        let l0 = loaded.drop_last();
+        lemma_load_filter(ids0, m, l0);
+        let mapped = loaded.map_values(g);
+        assert(mapped.drop_last() =~= l0.map_values(g));
+        assert(mapped.last() == g(loaded.last()));
+        let k = ids.len() - 1;
+        assert(loaded[k] is Ok <==> m.dom().contains(ids[k]));
+        if loaded.last() is Ok {
+            assert(mapped.filter(some) == mapped.drop_last().filter(some).push(mapped.last()));
+            assert(ids.filter(p) == ids0.filter(p).push(ids.last()));
+            assert(mapped.drop_last().filter(some).push(mapped.last()).map_values(get)
+                =~= mapped.drop_last().filter(some).map_values(get).push(get(mapped.last())));
+            assert(ids0.filter(p).push(ids.last()).map_values(rd) =~= ids0.filter(p).map_values(rd).push(rd(ids.last())));
+            assert(loaded[k]->Ok_0 == m[ids[k]]);
+        } else {
+            assert(mapped.filter(some) == mapped.drop_last().filter(some));
+            assert(ids.filter(p) == ids0.filter(p));
+        }
+    }
+}
+} // verus!
